@@ -274,7 +274,7 @@ def lenM : V → R (UInt16 × V)
     pure (8 + n16 dpid.length + 16 + sum16 ls, .obj "SwitchFeatures" [h, .bytes dpid, b, nt, ax, pad, caps, acts, .list ports])
   | _ => .panic
 
-/-- DPID is counted by Len but never written; the ports follow the fixed part directly -/
+/-- header, DPID, the fixed part, then the ports -/
 def marshalM (v : V) : R (Bytes × V) := do
   let (l0, v) ← lenM v
   let (l1, v) ← lenM v
@@ -283,7 +283,7 @@ def marshalM (v : V) : R (Bytes × V) := do
     let h := Header.setLength l1 h
     let hb ← Header.bytes h
     let (pbs, _) ← mapM2 PhyPort.marshalM ports
-    let bs ← fill l0.toNat ([pCopy hb, pU32 b, pU8 nt, pU8 ax, pCopy pad, pU32 caps, pU32 acts] ++ pbs.map pCopy)
+    let bs ← fill l0.toNat ([pCopy hb, pCopy dpid.asBytes, pU32 b, pU8 nt, pU8 ax, pCopy pad, pU32 caps, pU32 acts] ++ pbs.map pCopy)
     .ok (bs, .obj "SwitchFeatures" [h, dpid, .num b, .num nt, .num ax, .bytes pad, .num caps, .num acts, .list ports])
   | _ => .panic
 
@@ -1085,6 +1085,7 @@ def unmarshalWith (parseF : Slice → R V) (_childLen : MsgLenF) (recv : V) (dat
           let dp ← data.fromR s.n
           let pr ← BundlePropertyExperimenter.unmarshal BundlePropertyExperimenter.zero dp
           let l ← BundlePropertyExperimenter.len pr
+          if l = 0 then .err else                     -- "decoded a BundlePropertyExperimenter of length 0"
           pure { n := s.n + l.toNat, ps := s.ps ++ [pr] })
         { n := (n + 7) / 8 * 8, ps := [] }
       pure (.obj "BundleAdd" [V.u32 i, p, V.u16 f, m, .list st.ps])
